@@ -1,21 +1,37 @@
 #!/bin/bash
-# tools/selftest.sh [seed-id ...]: re-apply every kept seeded change (seeded/<id>/patch.diff) to a scratch copy of /repo/libs and
+# tools/selftest.sh [-u] [seed-id ...]: re-apply every kept seeded change (seeded/<id>/patch.diff) to a scratch copy of /repo/libs and
 # run the property's check against it. Expected: exit 1 (a named obligation fails) for every seed. Never touches /repo.
+# -u: record the result (exit code, failed obligations) in seeded/<id>/meta.json (confirmed_by_main.check_exit_on_changed_tree).
+# SELFTEST_PAR=<n> seeds in parallel (default 3), VX_JOBS cbmc jobs per seed (default 5).
 # Not part of any registered check; it is the regression test of the machinery itself (DESIGN.md 10.3).
 cd /verif
+upd=0; [ "$1" = "-u" ] && { upd=1; shift; }
 ids=${@:-$(ls seeded)}
-fail=0
-for id in $ids; do
-  prop=${id%%-*}
+one() {
+  id=$1; upd=$2; prop=${id%%-*}
   S=$(mktemp -d /tmp/vxself.XXXXXX)
   cp -r /repo/libs $S/libs; ln -s /repo/_build $S/_build
   if ! (cd $S && patch -p1 -s --no-backup-if-mismatch < /verif/seeded/$id/patch.diff) >/dev/null 2>&1; then
-    echo "$id: PATCH DOES NOT APPLY to the current tree (source changed since the seed was taken)"; rm -rf $S; continue
+    echo "$id: PATCH DOES NOT APPLY to the current tree (source changed since the seed was taken)"; rm -rf $S; return 0
   fi
-  VX_REPO=$S VX_OUTDIR=$S/out VX_EVIDENCE_DIR=$S/ev VX_JOBS=${VX_JOBS:-12} ./check $prop > $S/log 2>&1; rc=$?
+  VX_REPO=$S VX_OUTDIR=$S/out VX_EVIDENCE_DIR=$S/ev VX_JOBS=${VX_JOBS:-5} ./check $prop > $S/log 2>&1; rc=$?
   first=$(grep -m1 "FAILED" $S/log | sed 's/^ *//' | cut -c1-140)
   echo "$id: check exit=$rc  $first"
-  [ $rc -ne 1 ] && fail=1
+  if [ $upd = 1 ]; then
+    python3 - $id $rc $S/log <<'PY'
+import json, sys, re
+sid, rc, log = sys.argv[1], int(sys.argv[2]), sys.argv[3]
+p = "/verif/seeded/%s/meta.json" % sid
+m = json.load(open(p))
+c = m.setdefault("confirmed_by_main", {})
+c["check_exit_on_changed_tree"] = rc
+c["failed_obligations"] = [re.sub(r"/tmp/vxself\.\w+/", "<scratch>/", l.strip())[:300] for l in open(log) if "FAILED" in l][:8]
+json.dump(m, open(p, "w"), indent=1)
+PY
+  fi
   rm -rf $S
-done
-exit $fail
+  [ $rc -eq 1 ]
+}
+export -f one
+printf "%s\n" $ids | xargs -P ${SELFTEST_PAR:-3} -I{} bash -c "one {} $upd" | tee /tmp/selftest.out
+! grep -v "exit=1 " /tmp/selftest.out | grep -q .
